@@ -1,7 +1,7 @@
 (* C04 — locks: one holder, only live sessions, released whenever the session ends.  Theorems only. *)
 From stdpp Require Import gmap strings.
 From Coq Require Import NArith.
-From Verif Require Import Store.Model Store.Inv Store.Theorems Store.SessInv.
+From Verif Require Import Store.Model Store.Inv Store.Theorems Store.SessInv Store.EndInv.
 Local Open Scope N_scope.
 
 (* In every reachable state (any history of any commands, transactions included): every lock holder
@@ -93,6 +93,46 @@ Theorem C04_trigger_ends_session : forall log sid ss,
   sessions s !! sid ≠ Some ss.
 Proof. exact trigger_ends_session. Qed.
 
+(* The end-of-session clause at the level of whole commands: whatever command (other than a
+   transaction) makes a live session disappear -- destroy, deregistration of its node, of a service
+   or of a check, a registration that fails a bound check or renames its node -- every key the
+   session held is, in the state the command leaves, deleted with a tombstone at the command's
+   index (behaviour "delete"), or released with value, flags, lock counter and create index kept and
+   the modify index set to the command's index (behaviour "release"). *)
+Theorem C04_end_of_session_command : forall idx c s,
+  LockInv s -> (forall ops, c ≠ Txn ops) ->
+  forall sid ss, sessions s !! sid = Some ss -> sessions (apply idx c s).1 !! sid = None ->
+  forall k e0, kvs s !! k = Some e0 -> kv_session e0 = sid ->
+    if s_delete ss then kvs (apply idx c s).1 !! k = None /\ tombs (apply idx c s).1 !! k = Some idx
+    else kvs (apply idx c s).1 !! k = Some (released_row e0 idx).
+Proof. exact end_of_session_command. Qed.
+
+(* Inside a transaction a later operation may write the released key again, so the clause is stated
+   per operation, on the state that operation ran on (a committed transaction is the sequential
+   composition of its operations: C05_commit_is_sequential). *)
+Theorem C04_end_of_session_txn_op : forall idx op s s' r,
+  LockInv s -> txn_op idx op s = Ok (s', r) ->
+  forall sid ss, sessions s !! sid = Some ss -> sessions s' !! sid = None ->
+  forall k e0, kvs s !! k = Some e0 -> kv_session e0 = sid ->
+    if s_delete ss then kvs s' !! k = None /\ tombs s' !! k = Some idx
+    else kvs s' !! k = Some (released_row e0 idx).
+Proof. exact end_of_session_txn_op. Qed.
+
+Theorem C04_end_of_session_in_txn : forall idx ops s, LockInv s -> StepsEnd idx ops s.
+Proof. exact end_of_session_in_txn. Qed.
+
+(* No command of any history ever reports the model's own "out of fuel": the invalidation cascades
+   always run to completion, so no invariant above holds merely because a cascade was cut short. *)
+Theorem C04_no_fuel : forall log s, Forall no_fuel (run log s).2.
+Proof. exact run_no_fuel. Qed.
+
+Example C04_end_example :
+  let s := (run ld_log st0).1 in
+  let s' := (apply 4 (Deregister "n1" "" "c1") s).1 in
+  sessions s !! "s1" = Some (Sess "n1" "" false ["c1"] true 2) /\ sessions s' !! "s1" = None /\
+  kvs s !! "a" = Some (KV [] 0 "s1" 1 3 3) /\ kvs s' !! "a" = Some (released_row (KV [] 0 "s1" 1 3 3) 4).
+Proof. cbv zeta. repeat split; vm_compute; reflexivity. Qed.
+
 (* Non-vacuity of the triggers: the session of C04_example is bound to check c1; a registration
    that leaves c1's status out (the store defaults it to critical) ends it and releases its key. *)
 Example C04_trigger_example :
@@ -127,4 +167,9 @@ Print Assumptions C04_sessions_valid.
 Print Assumptions C04_session_validity_step.
 Print Assumptions C04_trigger_ends_session.
 Print Assumptions C04_trigger_example.
+Print Assumptions C04_end_of_session_command.
+Print Assumptions C04_end_of_session_txn_op.
+Print Assumptions C04_end_of_session_in_txn.
+Print Assumptions C04_no_fuel.
+Print Assumptions C04_end_example.
 Print Assumptions C04_example.
